@@ -225,7 +225,35 @@ fn run(name: &str, a: &[i128]) -> String {
                 5 => (v(z.second().map(i64::from)), v(z.second_with_provider(&p).map(i64::from))),
                 6 => (v(z.millisecond().map(i64::from)), v(z.millisecond_with_provider(&p).map(i64::from))),
                 7 => (v(z.microsecond().map(i64::from)), v(z.microsecond_with_provider(&p).map(i64::from))),
-                _ => (v(z.nanosecond().map(i64::from)), v(z.nanosecond_with_provider(&p).map(i64::from))),
+                8 => (v(z.nanosecond().map(i64::from)), v(z.nanosecond_with_provider(&p).map(i64::from))),
+                9 => (v(z.day_of_week().map(i64::from)), v(z.day_of_week_with_provider(&p).map(i64::from))),
+                10 => (v(z.day_of_year().map(i64::from)), v(z.day_of_year_with_provider(&p).map(i64::from))),
+                11 => (v(z.week_of_year().map(|x| x.map(i64::from).unwrap_or(-2))), v(z.week_of_year_with_provider(&p).map(|x| x.map(i64::from).unwrap_or(-2)))),
+                12 => (v(z.year_of_week().map(|x| x.map(i64::from).unwrap_or(-2))), v(z.year_of_week_with_provider(&p).map(|x| x.map(i64::from).unwrap_or(-2)))),
+                13 => (v(z.days_in_week().map(i64::from)), v(z.days_in_week_with_provider(&p).map(i64::from))),
+                14 => (v(z.days_in_month().map(i64::from)), v(z.days_in_month_with_provider(&p).map(i64::from))),
+                15 => (v(z.days_in_year().map(i64::from)), v(z.days_in_year_with_provider(&p).map(i64::from))),
+                16 => (v(z.months_in_year().map(i64::from)), v(z.months_in_year_with_provider(&p).map(i64::from))),
+                17 => (v(z.in_leap_year().map(i64::from)), v(z.in_leap_year_with_provider(&p).map(i64::from))),
+                18 => (v(z.hours_in_day().map(i64::from)), v(z.hours_in_day_with_provider(&p).map(i64::from))),
+                19 => (v(z.offset_nanoseconds().map(|x| x as i64)), v(z.offset_nanoseconds_with_provider(&p).map(|x| x as i64))),
+                20 | 21 => {
+                    // since / until another instant (2024-04-30T00:00Z) with largestUnit month: months * 1000 + days
+                    let other = Instant::from(temporal_rs::time::EpochNanoseconds::try_from(1_714_435_200_000_000_000i128).unwrap())
+                        .to_zoned_date_time_iso(temporal_rs::TimeZone::UtcOffset(h::utc_offset_from_minutes(a[2] as i16)));
+                    let mut st = temporal_rs::options::DifferenceSettings::default();
+                    st.largest_unit = Some(temporal_rs::options::Unit::Month);
+                    let enc = |r: temporal_rs::TemporalResult<temporal_rs::Duration>| r.map(|d| d.months().as_inner() as i64 * 1000 + d.days().as_inner() as i64).unwrap_or(-1);
+                    if a[0] == 20 { (enc(z.since(&other, st)), enc(z.since_with_provider(&other, st, &p))) } else { (enc(z.until(&other, st)), enc(z.until_with_provider(&other, st, &p))) }
+                }
+                22 => (v(z.start_of_day().map(|x| x.epoch_nanoseconds().as_i128() as i64)), v(z.start_of_day_with_provider(&p).map(|x| x.epoch_nanoseconds().as_i128() as i64))),
+                _ => {
+                    let f = |x: i32| temporal_rs::primitive::FiniteF64::from(x);
+                    let zf = temporal_rs::primitive::FiniteF64::default();
+                    let d = temporal_rs::Duration::new(zf, f(1), zf, f(1), f(25), zf, zf, zf, zf, zf).unwrap();
+                    let enc = |r: temporal_rs::TemporalResult<temporal_rs::ZonedDateTime>| r.map(|x| x.epoch_nanoseconds().as_i128() as i64).unwrap_or(-1);
+                    if a[0] == 23 { (enc(z.add(&d, None)), enc(z.add_with_provider(&d, None, &p))) } else { (enc(z.subtract(&d, None)), enc(z.subtract_with_provider(&d, None, &p))) }
+                }
             };
             format!("{w} {t}")
         }
@@ -381,6 +409,73 @@ fn run(name: &str, a: &[i128]) -> String {
                     Ok(p) => format!("0 {} {} {}", p.iso_year(), p.iso_month(), p.iso_day()),
                     Err(e) => format!("1 {}", e.kind() as u8),
                 },
+            }
+        }
+        "record_plain_month_day" => {
+            // form short_month short_day  + the record: form 1 `MM-DD`, 2 the rendered date / date-time, 0 neither
+            use core::str::FromStr;
+            let text = match a[0] { 1 => format!("{:02}-{:02}", a[1], a[2]), 2 => render_record(&a[3..]), _ => "x".to_string() };
+            match temporal_rs::PlainMonthDay::from_str(&text) {
+                Ok(p) => format!("0 {} {} {}", p.iso_year(), p.iso_month(), p.iso_day()),
+                Err(e) => format!("1 {}", e.kind() as u8),
+            }
+        }
+        "fs_provider_offset" => {
+            // transition offset_before offset_after instant_ns: the real provider over a cached one-transition table
+            use temporal_rs::provider::TimeZoneProvider;
+            let mut t = vharness::c15::Table { n: 2, times: [a[0] as i64, a[0] as i64 + 4_000_000_000, 0], types: [1, 1, 0], ntypes: 2,
+                                               utoff: [a[1] as i64, a[2] as i64, 0], dst: [false, false, false] };
+            t.times[2] = t.times[1] + 1;
+            let p = temporal_rs::tzdb::FsTzdbProvider::verif_with_cached("Syn/Zone", vharness::c15::build(&t));
+            match p.get_named_tz_offset_nanoseconds("Syn/Zone", a[3]) {
+                Ok(o) => format!("0 {}", o.offset),
+                Err(e) => format!("1 {}", e.kind() as u8),
+            }
+        }
+        "posix_footer_offset" => {
+            // q: Tzif::get beyond an empty transition table, footer `EST5EDT,M3.2.0,M11.1.0`
+            use tzif::data::posix::{DstTransitionInfo, PosixTzString, TransitionDate, TransitionDay, ZoneVariantInfo};
+            use tzif::data::time::Seconds;
+            let t = vharness::c15::Table { n: 0, times: [0; 3], types: [0; 3], ntypes: 2, utoff: [-18000, -14400, 0], dst: [false, true, false] };
+            let mut tz = vharness::c15::build(&t);
+            tz.footer = Some(PosixTzString {
+                std_info: ZoneVariantInfo { name: "EST".into(), offset: Seconds(18000) },
+                dst_info: Some(DstTransitionInfo {
+                    variant_info: ZoneVariantInfo { name: "EDT".into(), offset: Seconds(14400) },
+                    start_date: TransitionDate { day: TransitionDay::Mwd(3, 2, 0), time: Seconds(7200) },
+                    end_date: TransitionDate { day: TransitionDay::Mwd(11, 1, 0), time: Seconds(7200) },
+                }),
+            });
+            match tz.get(&Seconds(a[0] as i64)) {
+                Ok(o) => format!("0 {}", o.offset),
+                Err(e) => format!("1 {}", e.kind() as u8),
+            }
+        }
+        "duration_compare" => {
+            // days h min s ms us ns (a)  days h min s ms us ns (b): Duration::compare without relativeTo
+            use temporal_rs::primitive::FiniteF64 as F;
+            let f = |x: i128| F::try_from(x as f64).unwrap_or_default();
+            let z = F::default();
+            let mk = |v: &[i128]| temporal_rs::Duration::new(z, z, z, f(v[0]), f(v[1]), f(v[2]), f(v[3]), f(v[4]), f(v[5]), f(v[6]));
+            let (Ok(x), Ok(y)) = (mk(&a[0..7]), mk(&a[7..14])) else { return "1 2".into() };
+            match x.compare_with_provider(&y, None, &temporal_rs::provider::NeverProvider) {
+                Ok(o) => format!("0 {}", o as i8),
+                Err(e) => format!("1 {}", e.kind() as u8),
+            }
+        }
+        "duration_add" => {
+            // two calendar-free durations (7 fields each) + subtract flag: the seven result fields days..nanoseconds
+            use temporal_rs::primitive::FiniteF64 as F;
+            let f = |x: i128| F::try_from(x as f64).unwrap_or_default();
+            let z = F::default();
+            let mk = |v: &[i128]| temporal_rs::Duration::new(z, z, z, f(v[0]), f(v[1]), f(v[2]), f(v[3]), f(v[4]), f(v[5]), f(v[6]));
+            let (Ok(x), Ok(y)) = (mk(&a[0..7]), mk(&a[7..14])) else { return "1 2".into() };
+            let r = if a[14] != 0 { x.subtract(&y) } else { x.add(&y) };
+            match r {
+                Ok(d) if d.years() == 0.0 && d.months() == 0.0 && d.weeks() == 0.0 => format!("0 {} {} {} {} {} {} {}", d.days().as_inner() as i128, d.hours().as_inner() as i128,
+                    d.minutes().as_inner() as i128, d.seconds().as_inner() as i128, d.milliseconds().as_inner() as i128, d.microseconds().as_inner() as i128, d.nanoseconds().as_inner() as i128),
+                Ok(_) => "1 0".into(),
+                Err(e) => format!("1 {}", e.kind() as u8),
             }
         }
         "negate_mode" => format!("{}", vharness::common::mode_idx(mode(a[0]).negate())),
